@@ -194,11 +194,19 @@ pub fn run_history(file: &[u8], ops: &[(usize, Op)], with_fp: bool) -> Result<Ve
     // every third file is served by a source returning at most 7 bytes per read call
     let src = if fnv(file) % 3 == 0 { Counting::short(file.to_vec(), 7) } else { Counting::new(file.to_vec()) };
     let seeks = src.seeks.clone();
+    let bytes = src.bytes.clone();
     let reader = match catch(|| Reader::new(src)) {
         Ok(Ok(r)) => r,
         Ok(Err(e)) => return Err(format!("open err {}", err_class(&e))),
         Err(_) => return Err("open panic".to_string()),
     };
+    // C16: opening consults the trailer only — no absolute seek (no block load) and at most the
+    // 22 trailer bytes read, whatever the size of the file and its codec
+    let (open_seeks, open_bytes) = (seeks.get(), bytes.get());
+    if open_seeks != 0 || open_bytes > 22 {
+        println!("DIRECT fail open: Reader::new did {} absolute seek(s) and read {} bytes of a {}-byte file (the trailer is 22 bytes)",
+                 open_seeks, open_bytes, file.len());
+    }
     let mut cursors: Vec<Option<ReaderCursor<Counting>>> = vec![Some(reader.into_cursor().map_err(|e| err_class(&e))?)];
     let mut lines = Vec::new();
     let mut dead = false;
@@ -284,6 +292,29 @@ pub fn gen_history(rng: &mut Rng, es: &[(Vec<u8>, Vec<u8>)], len: usize, style: 
                 }
             }
         }
+        // walk-back histories: absolute move, long runs of prev across block boundaries, exact seeks
+        // onto stored keys, prev again (the shape a backward-iteration memo in the block cursor breaks)
+        2 => {
+            if !es.is_empty() {
+                ops.push((0, Op::Last));
+                ops.push((0, Op::Ge(es[rng.below(es.len() as u64) as usize].0.clone())));
+                while ops.len() < len {
+                    for _ in 0..rng.range(2, 12) {
+                        ops.push((0, Op::Prev));
+                    }
+                    let k = es[rng.below(es.len() as u64) as usize].0.clone();
+                    ops.push((0, match rng.below(4) { 0 => Op::Ge(k), 1 => Op::Le(k), 2 => Op::Eq(k), _ => Op::Ge(k) }));
+                    for _ in 0..rng.range(2, 12) {
+                        ops.push((0, Op::Prev));
+                    }
+                    if rng.chance(1, 4) {
+                        for _ in 0..rng.range(1, 6) {
+                            ops.push((0, Op::Next));
+                        }
+                    }
+                }
+            }
+        }
         // C03: random histories; runs of relative moves followed by absolute moves (the D2 shape)
         _ => {
             while ops.len() < len {
@@ -306,6 +337,22 @@ pub fn gen_history(rng: &mut Rng, es: &[(Vec<u8>, Vec<u8>)], len: usize, style: 
                     17 if ncur < 4 => {
                         ops.push((cid, Op::Clone(ncur)));
                         ncur += 1;
+                    }
+                    18 => {
+                        // walk back over several block boundaries, seek exactly onto a stored key
+                        // (often the last key of a block), walk back again: in-block backward memo shape
+                        if !es.is_empty() {
+                            let run1 = rng.range(3, 30);
+                            for _ in 0..run1 {
+                                ops.push((cid, Op::Prev));
+                            }
+                            let k = es[rng.below(es.len() as u64) as usize].0.clone();
+                            ops.push((cid, match rng.below(3) { 0 => Op::Ge(k), 1 => Op::Le(k), _ => Op::Eq(k) }));
+                            let run2 = rng.range(3, 30);
+                            for _ in 0..run2 {
+                                ops.push((cid, Op::Prev));
+                            }
+                        }
                     }
                     _ => {
                         // seek back to an early key after having moved: stale-cache pattern
@@ -452,14 +499,21 @@ pub fn generate<W: Write>(c: &mut Cases<W>, rng: &mut Rng, thorough: bool, which
         if cfg.levels > 8 {
             cfg.levels = (cfg.levels % 5) + 1;
         }
-        let es = bounded_entries(rng, &cfg, if deep { 250 } else { 300 }, if deep { 5000 } else { 30000 });
+        let mut es = bounded_entries(rng, &cfg, if deep { 250 } else { 300 }, if deep { 5000 } else { 30000 });
+        if which == "C03" && i % 4 == 1 {
+            // one entry per data block, few index levels, an in-block index interval of 3..8: every key is
+            // the last key of its data block and every third..eighth block sits on an indexed offset
+            cfg = FileCfg { codec: CompressionType::None, level: 0, block_size: 16, unclamped: true,
+                            interval: Some(*rng.pick(&[3usize, 3, 4, 8])), levels: (i % 3 == 0) as u8 };
+            es = (0..(40 + rng.below(60)) as u32).map(|x| (x.to_be_bytes().to_vec(), vec![x as u8; 24])).collect();
+        }
         let file = match write_file(&cfg, &es) {
             WriteOutcome::File(f) => f,
             _ => continue,
         };
         deep_files += multi_block_levels(&file, cfg.levels) as u64;
-        let style = if which == "C02" { 0 } else { 1 };
-        let hlen = match which { "C02" => 40, "C03" => 70, "C16" => 50, _ => 40 };
+        let style = if which == "C02" { 0 } else if which == "C03" && i % 4 == 1 { 2 } else { 1 };
+        let hlen = match which { "C02" => 40, "C03" => if style == 2 { 160 } else { 70 }, "C16" => 50, _ => 40 };
         let ops = gen_history(rng, &es, hlen, style);
         if which == "C10" {
             let v1 = to_v1(&file);
